@@ -122,6 +122,10 @@ def mon_conn(ops, impl):
         r = _f(a, "r=")
         if w[0] == "cn_peer":
             rx = _f(a, "rx=")
+            cbh = _f(a, "cbh=")
+            if cbh != "-":
+                for x in cbh.split(","):
+                    out.append((i, "mon_cn exempt_open " + x))
             if rx != "-":
                 for f in rx.split(";"):
                     out.append((i, "mon_cn rx " + f))
@@ -132,6 +136,14 @@ def mon_conn(ops, impl):
             out.append((i, f"mon_cn reset {slots[int(w[1])]} {_f(a, 'cb=') if _f(a, 'cb=') != '-' else 0}"))
         if w[0] == "cn_target":
             out.append((i, "mon_cn target " + w[1]))
+        # C13: what the receive API handed to the application
+        if w[0] in ("cn_resp", "cn_accept") and r.startswith("ok:"):
+            sid = slots[int(w[1])] if w[0] == "cn_resp" and int(w[1]) < len(slots) else (slots[-1] if slots else 0)
+            out.append((i, f"mon_cn delivered {sid} head"))
+        if w[0] == "cn_rtrailers" and r.startswith("trailers:") and int(w[1]) < len(slots):
+            out.append((i, f"mon_cn delivered {slots[int(w[1])]} trailers"))
+        if w[0] == "cn_read" and r == "none" and int(w[1]) < len(slots):
+            out.append((i, f"mon_cn delivered {slots[int(w[1])]} end"))
         if w[0] == "cn_budget":
             budget_open = w[1] == "inf"
         tx = _f(a, "tx=")
